@@ -210,7 +210,7 @@ class Gen:
         rng = self.rng
         r = rng.random()
         if r < 0.3:
-            o = tcp_opts(rng)
+            o = tcp_opts(rng, allow_overflow=(rng.random() < 0.05))     # > 40 octets of options: must be refused
             t = (f"tcp {rng.choice([0, 80, 65535, rng.randrange(65536)])} {rng.randrange(65536)} {rng.randrange(2**32)} "
                  f"{rng.choice([0, 2**32 - 1, rng.randrange(2**32)])} {rng.randrange(4096)} {rng.randrange(65536)} "
                  f"{rng.randrange(65536)} {typed(o)}")
@@ -511,8 +511,9 @@ def nontrivial(op, impl):
 
 def regen_tables():
     sys.path.insert(0, core.VERIF)
-    from translator import gen_crc
+    from translator import gen_crc, gen_tags_c05
     gen_crc.main([])
+    gen_tags_c05.main([])
 
 
 def run(chk):
@@ -572,7 +573,15 @@ def run(chk):
     corr.finalize_cov(chk)
 
 
-MODELLED_NOT_PROVED = []
+MODELLED_NOT_PROVED = [
+    "acceptance of the whole serialisation by Dissect.walk for arbitrary stacks (length_fields_outside_known_findings is a "
+    "stated def): proved are the per-layer field theorems, their validity at any depth (layer_in_situ) and the IPv4 bundle "
+    "(length_fields_partial)",
+    "802.1Q / PPPoE / MPLS / SNAP / SLL / loopback / AH / IPv6-extension-chain tag and length assignments, RFC 4884 layout "
+    "with extensions, ICMP / ICMPv6 / TCP-over-IPv6 checksums inside serialised stacks: model + correspondence + oracle only "
+    "(the checksum tails themselves are proved for all buffers)",
+    "RadioTap header (it_len, FCS placement), EAPOL, LLC: harness + oracle only, no model",
+]
 # layer kinds of Serialize.lean (the Lean model answers `unmodelled` for option lists whose size/write libtins computes
 # inconsistently — C02's findings — and those cases are then compared against the oracle only)
 MODELLED_KINDS = {"eth", "dot1q", "ip", "ip6", "tcp", "udp", "icmp", "icmp6", "raw", "pppoe", "mpls", "dot3", "snap",
